@@ -28,7 +28,7 @@ EXPLANATION = (
     "INFEASIBLE only under root-LP infeasible or (no incumbent and heap empty): the node-budget exit must be "
     "discriminated; (O5) the branching step pushes exactly the floor child and the ceil child of one variable; (O6) "
     "root bound tightening is dominated by the explicit-row detector; (O7) the incumbent pair is assigned from a point "
-    "and the cost of that same point, and published together. (O9) the certifier _is_feasible tests every component for non-negativity, every integer variable for integrality and every row; (O10) bound tests prune with the numerical tolerance only. (O11) node LP construction, branching variable, children and incumbent update, statement group by statement group. NOT decided: LP numerics, true optimality/feasibility."
+    "and the cost of that same point, and published together. (O9) the certifier _is_feasible tests every component for non-negativity, every integer variable for integrality and every row; (O10) bound tests prune with the numerical tolerance only. (O11) node LP construction, branching variable, children and incumbent update, statement group by statement group. (O12) the obligations of C03 on the simplex routines, whose statuses the branch and bound prunes on. NOT decided: LP numerics, true optimality/feasibility."
 )
 
 MOD = "milp"
@@ -96,7 +96,32 @@ def parents_of(fn_node):
     return out
 
 
+def lp_verdicts(ctx: Ctx):
+    """O12: every MILP verdict is built on the verdicts of solve_lp - a node whose LP is INFEASIBLE is pruned for good, a
+    root LP that is INFEASIBLE ends the run, MAX_ITER keeps the node's subtree open (`lp_budget_hit`).  What C03 decides
+    about the simplex routines (which status is returned where, thresholds, the tableau steps) therefore counts here as
+    well; its obligations on the interior-point solver do not."""
+    import importlib
+
+    from sa.report import run_module
+
+    mod = importlib.import_module("checks.c03")
+    sub = Ctx("C03", ctx.repo, "quick")
+    run_module(mod, sub)
+    if sub.aborted:
+        ctx.step_aborts.append(f"[C03] {sub.aborted}")
+    n = 0
+    for o in sub.obs:
+        if "-G" in o.oid or o.severity != "violation" or o.rel != "solvor/simplex.py":
+            continue
+        n += 1
+        ob_ = ctx.ob("C04-O12", o.rule, None, f"[{o.oid}] {o.construct}", o.ok, (o.detail + " - solve_milp prunes, stops or keeps a subtree open on this status") if not o.ok else "", rel=o.rel, fname=o.func)
+        ob_.lineno = o.lineno
+    ctx.floor("obligations on the simplex routines (from C03)", n, 20)
+
+
 def run(ctx: Ctx):
+    ctx.step(lp_verdicts)
     f = ctx.func(MOD, "solve_milp")
     ctx.step(check_units)
     ctx.step(check_incumbent, f)
@@ -739,7 +764,16 @@ def _v_detect_binary_packing_rows(tree):
     node[0].orelse = M.stmts("if all(j in int_set for j, _ in nz):\n    for j, coef in nz:\n        if coef >= 1.0 - eps:\n            bounded.add(j)")
 
 
+def _v_phase1_infeasible_before_budget(tree):
+    g = M.find_func(tree, "_phase1")
+    k = [i for i, st in enumerate(g.body) if isinstance(st, ast.If) and M.src_is(st.test, "status == Status.MAX_ITER")]
+    if not k or not isinstance(g.body[k[0] + 1], ast.If):
+        raise M.Skip("phase-1 status tests not found")
+    g.body[k[0]], g.body[k[0] + 1] = g.body[k[0] + 1], g.body[k[0]]
+
+
 VARIANTS = [
+    M.Variant("simplex phase 1 tests the residual infeasibility before the budget exit: a node LP that ran out of pivots is pruned as INFEASIBLE (seed C04-U)", "solvor/simplex.py", _v_phase1_infeasible_before_budget, "C04-O12"),
     M.Variant("LNS repair splices a remembered sub-MIP answer into the current solution (seed C04-S)", ML, _v_lns_repair_memo, "C04-O3"),
     M.Variant("_detect_binary reads set-packing rows as bounds on each member (seed C04-T)", ML, _v_detect_binary_packing_rows, "C04-O6"),
     M.Variant("rows with equal left-hand sides collapsed to the first one, whatever their right-hand sides (seed C04-O)", ML, _v_duplicate_rows_dropped_by_lhs, "C04-G15"),
